@@ -788,4 +788,5 @@ func extractC10(repo, gen, facts string) {
 	extractC10Classes(repo, gen, facts)
 	extractC10Sites(repo, gen, facts)
 	extractC10Lexer(repo, gen, facts)
+	extractC10Buckets(repo, gen, facts)
 }
